@@ -41,6 +41,7 @@ def setup(ctx):
         "the peer's count of decrypted application bytes is taken after draining to EOF once the client call returned",
         "writes are observed at asyncio.sslproto._SSLProtocolTransport.write (the transport the client protocol runs on)",
     ]
+    ctx.require("monitor", "store_location_calls", 6)
     ctx.require("monitor", "calls", 31)
     ctx.require("monitor", "failed_verifications", 19)
     ctx.require("monitor", "verify_returns_seen", 29)
@@ -312,6 +313,8 @@ def run(ctx):
             # ---- one client object: successful call inside `async with`, certificate changes, client reused afterwards
             if ctx.mine(k + 3):
                 run_reuse_after_context(ctx, peer, idents, state, tmp, mon)
+            if ctx.mine(k + 4):
+                run_store_location(ctx, peer, idents, state, tmp, mon)
             # ---- concurrent calls on one client
             if ctx.mine(k + 1):
                 run_concurrent(ctx, peer, idents, state, tmp, mon)
@@ -319,6 +322,70 @@ def run(ctx):
                 run_db_faults(ctx, peer, idents, state, tmp, mon)
     finally:
         shutil.rmtree(tmp, ignore_errors=True)
+
+
+def run_store_location(ctx, peer, idents, state, tmp, mon):
+    """Where the pin store lives: a relative path (the working directory changes between pinning and the next
+    call, as in a program that daemonises), a path through a symlink, `~`.  A store that cannot be found again is
+    a reason to fail, never a reason to treat a pinned host as new."""
+    from cryptography import x509
+
+    from nauyaca.client.session import GeminiClient
+    from nauyaca.security.tofu import CertificateChangedError
+
+    good = x509.load_der_x509_certificate(idents["good"].der)
+    cwd0 = os.getcwd()
+    for op in ("get", "upload", "delete"):
+        for how in ("relative-path-then-chdir", "relative-path-same-dir", "symlinked-directory"):
+            home = os.path.join(tmp, f"loc-{op}-{how}")
+            other = os.path.join(home, "elsewhere")
+            os.makedirs(other)
+            state.update(mode="eager", redirect_to=None)
+            state["go"].set()
+            peer.swap_cert(idents["good"])
+            url = f"gemini://127.0.0.1:{peer.port}/private?q=SECRETQUERY"
+            try:
+                os.chdir(home)
+                if how == "symlinked-directory":
+                    os.makedirs(os.path.join(home, "real"))
+                    os.symlink("real", os.path.join(home, "link"))
+                    dbp = Path(os.path.join(home, "link", "pins.db"))
+                else:
+                    dbp = Path("pins.db")
+                client = GeminiClient(timeout=6, trust_on_first_use=True, tofu_db_path=dbp)
+                client.tofu_db.trust("127.0.0.1", peer.port, good)
+                if how == "relative-path-then-chdir":
+                    os.chdir(other)
+                peer.swap_cert(idents["other"])
+                n0 = len(peer.log)
+
+                async def call():
+                    if op == "get":
+                        return await client.get(url)
+                    if op == "delete":
+                        return await client.delete(url, token="SECRETTOKEN")
+                    return await client.upload(url, b"SECRET" * 30, mime_type="text/plain", token="SECRETTOKEN")
+
+                try:
+                    resp = asyncio.run(call())
+                    res = ("response", resp.status)
+                except CertificateChangedError:
+                    res = ("changed",)
+                except BaseException as e:  # noqa: BLE001
+                    res = ("error", type(e).__name__)
+            finally:
+                os.chdir(cwd0)
+            peer.wait_idle(3)
+            received = b"".join(r["received"] for r in peer.log[n0:])
+            ctx.count("monitor", "calls")
+            ctx.count("monitor", "failed_verifications")
+            ctx.count("monitor", "store_location_calls")
+            wit = {"operation": op, "store_location": how, "result": res, "peer_received_len": len(received), "peer_received_head": received[:100]}
+            if received:
+                ctx.violation(f"peer-received-bytes:entry={op}:pin=changed:store={how}", f"{len(received)} request bytes reached a peer whose certificate differs from the pin", wit)
+            elif res[0] == "response":
+                ctx.undecided("store-location: verification did not fail (see C03)")
+            ctx.case(("store-location", op, how, res[0], bool(received)), True, sample=wit)
 
 
 def run_reuse_after_context(ctx, peer, idents, state, tmp, mon):
